@@ -1563,7 +1563,7 @@ func main() {
 	b.WriteString("(* GENERATED by translate/skeletons from the lisk-engine sources - do not edit.\n")
 	b.WriteString("   Lock/blocking skeletons of every function of the listed files; obligations: each is a safe program\n")
 	b.WriteString("   (balanced, no re-acquisition, nested locks only in the order below, nothing blocking under a lock). *)\n")
-	b.WriteString("From Coq Require Import List String Bool.\nFrom LE Require Import Conc.RWMutex Conc.Skeleton Conc.SharedAppend Conc.SnapshotRead.\nImport ListNotations.\nLocal Open Scope string_scope.\n\n")
+	b.WriteString("From Coq Require Import List String Bool.\nFrom LE Require Import Conc.RWMutex Conc.Skeleton Conc.SharedAppend Conc.SnapshotRead Conc.Atomic.\nImport ListNotations.\nLocal Open Scope string_scope.\n\n")
 	b.WriteString("(* the one fixed lock order (position = identifier) *)\n")
 	for i, n := range order {
 		fmt.Fprintf(&b, "Definition lk_%s : nat := %d.\n", coqName(n), i)
@@ -1621,9 +1621,41 @@ func main() {
 		if u.fanouts[k] == "slot" {
 			d = "Slots"
 		}
-		fmt.Fprintf(&b, "\n  (%q, %s)", k, d)
+		fmt.Fprintf(&b, "\n  (%q, %s)", coqName(k), d)
 	}
 	b.WriteString("].\nLemma fanouts_ok : forallb (fun p => discipline_ok (snd p)) fanouts = true.\nProof. vm_compute. reflexivity. Qed.\n")
+	// every method of a lock-owning type is one atomic step of the sequential models: it must enter the object's own
+	// lock(s) at most once per call. Driver loops that call operations repeatedly are exempt (listed).
+	exempt := map[string]bool{"TransactionPool.Start": true}
+	b.WriteString("\n(* methods of lock-owning types with the identifier of each own lock: one critical section per call *)\n")
+	b.WriteString("Definition atomic_ops : list (string * nat * prog) := [")
+	firstA := true
+	nAtomic := 0
+	for _, fi := range fns {
+		if fi.recv == nil || exempt[fi.key()] {
+			continue
+		}
+		var own []string
+		for fname, ft := range fi.recv.fields {
+			if isQualified(&typ{ft, fi.recv.pkg}, "sync", "Mutex", "RWMutex") {
+				own = append(own, fi.recv.name+"."+fname)
+			}
+		}
+		sort.Strings(own)
+		for _, l := range own {
+			id, used := lockID[l]
+			if !used {
+				continue
+			}
+			if !firstA {
+				b.WriteString(";")
+			}
+			firstA = false
+			nAtomic++
+			fmt.Fprintf(&b, "\n  (%q, %d, skel_%s)", coqName(fi.key()), id, coqName(fi.key()))
+		}
+	}
+	b.WriteString("].\nLemma atomic_ops_single_section : forallb (fun x => single_section (snd (fst x)) (snd x)) atomic_ops = true.\nProof. vm_compute. reflexivity. Qed.\n")
 	b.WriteString("\n(* getters that assemble a block from its separately stored parts: through one snapshot, or by separate reads *)\n")
 	b.WriteString("Definition multi_reads : list (string * read_discipline) := [")
 	mr := map[string]string{}
@@ -1642,7 +1674,7 @@ func main() {
 		if d == "one" {
 			cd = "OneSnapshot"
 		}
-		fmt.Fprintf(&b, "\n  (%q, %s)", fi.key(), cd)
+		fmt.Fprintf(&b, "\n  (%q, %s)", coqName(fi.key()), cd)
 	}
 	b.WriteString("].\nLemma multi_reads_ok : andb (negb (match multi_reads with [] => true | _ => false end)) (forallb (fun p => read_discipline_ok (snd p)) multi_reads) = true.\nProof. vm_compute. reflexivity. Qed.\n")
 	if len(u.errs) > 0 {
@@ -1683,7 +1715,7 @@ func main() {
 	}
 	sum := map[string]interface{}{
 		"functions": len(fns), "lock_order": order, "nesting": edgeList, "opaque_calls": keys(u.opaque),
-		"assumed_live_sends": keys(u.live), "fanouts": fo, "multi_reads": mr, "changed": changed, "files": listed,
+		"assumed_live_sends": keys(u.live), "fanouts": fo, "multi_reads": mr, "atomic_ops": nAtomic, "atomic_exempt": keys(exempt), "changed": changed, "files": listed,
 	}
 	js, _ := json.Marshal(sum)
 	fmt.Println(string(js))
